@@ -1002,6 +1002,14 @@ class REPEX_state:
                         # delete txt files
                         load_dir = self.config["simulation"]["load_dir"]
                         if self.config["output"].get("delete_old_all", False):
+                            # files stored along with the trajectory files
+                            # (keep_traj_fnames) go with the path as well,
+                            # or its directory cannot be removed
+                            for adress in del_dic["adress"]:
+                                for ext in self.pstore.keep_traj_fnames:
+                                    kept = os.path.splitext(adress)[0] + ext
+                                    if os.path.isfile(kept):
+                                        os.remove(kept)
                             for txt in ("order.txt", "traj.txt", "energy.txt"):
                                 txt_adress = os.path.join(
                                     load_dir, pn_old_del, txt
